@@ -344,6 +344,10 @@ impl SourceBlockEncoder {
                 "source_symbols.len() exceeds u16::MAX"
             );
             let plan = get_or_generate_source_block_encoding_plan(source_symbols.len() as u16);
+            // verification hook H7: a preemption point while this thread holds the plan's Arc (real
+            // threads can be descheduled anywhere; the simulator only switches at sync operations)
+            #[cfg(raptorq_verif_shuttle)]
+            shuttle::thread::sleep(core::time::Duration::from_secs(0));
             let intermediate_symbols = gen_intermediate_symbols_with_plan(
                 &source_symbols,
                 config.symbol_size() as usize,
